@@ -4,9 +4,15 @@ Tie K4: vpsc.Solver(vs, cs).solve() against the extracted Coq model
 (coq/Vpsc/Vpsc.v, API 400) on the same doubles (passed exactly as rationals):
 positions and cost within 1e-9 relative, `unsatisfiable` flags exactly; and the
 implementation run on fractions.Fraction inputs against the model EXACTLY.
-Oracle: the property text on the implementation's own output (feasibility,
-cost identity, optimality by exact active-set enumeration for small instances
-and by an independently computed weak-duality certificate otherwise).
+State-level tie: the invariants proved for the model (I1 every inactive unflagged
+constraint is in solver.inactive, I2 active => same block and offset difference
+= gap, I4 blocks partition the variables, blockInd) are checked on the
+IMPLEMENTATION's final state, and its inactive multiset / active flags are
+compared with the model's wherever the run is not fragile.
+Oracle: the property text on the implementation's own output (feasibility
+within 1e-9 (1 + magnitude), cost identity, optimality by exact active-set
+enumeration for small instances; otherwise gated by the proved checker kkt_ok
+and an independently computed weak-duality certificate).
 """
 import json
 import sys
@@ -26,7 +32,8 @@ RULE = ("instances of vpsc.Solver: 1..60 variables (desired positions with ties,
         "powers of ten and log-uniform doubles in 1e-2..1e10; scales in {0.5,1,2,4}); constraint graphs: random DAGs under a random "
         "topological order (0..3n edges), chains (shuffled constraint order), layer-like chains with 1e10-weight walls, stars/trees, "
         "duplicated and transitively redundant constraints, the 11 instances of tests/test_vpsc.py, witness A.1, and cyclic multigraphs "
-        "(2-cycles, self-loops, contradictory and zero-gap cycles). A case is one instance; non-trivial = some variable is moved off its "
+        "(2-cycles, self-loops, contradictory and zero-gap cycles), and a directed family with exactly tight transitive constraints "
+        "(n 5..12, integer data, weights {1,0.3,2.5,7,100}, 1-4 constraints a->c with gap g(a->b)+g(b->c)). A case is one instance; non-trivial = some variable is moved off its "
         "desired position; distinct by input.")
 EXPLANATION = ("Theorems are about coq/Vpsc/Vpsc.v, a faithful model of labella/vpsc.py: whenever solve returns, every unflagged constraint "
                "holds within 1e-10 and the reported cost is the cost of the reported positions (invariants I1-I4 through merges AND splits); "
@@ -34,7 +41,8 @@ EXPLANATION = ("Theorems are about coq/Vpsc/Vpsc.v, a faithful model of labella/
                "The tie checks that labella/vpsc.py computes the same positions, cost and flags as the model, in doubles (1e-9) and on "
                "exact Fractions (equality).")
 TOL = 1e-9          # relative tolerance of the tie on positions and cost
-FEAS_TOL = 1e-6     # the property's feasibility tolerance (times the magnitude of the instance)
+FEAS_TOL = 1e-9     # feasibility tolerance of the oracle: 1e-9 (1 + magnitude); doubles keep ~1e-12 relative here
+STATE_TOL = 1e-9    # offset difference of an active constraint vs its gap (invariant I2), relative to 1 + magnitude
 OPT_TOL = 1e-6      # "no feasible assignment beats the cost by more than 1e-6 relative"
 
 TEST_INSTANCES = [
@@ -132,27 +140,49 @@ def decode_model(l):
     o["part_ok"] = bool(r.z())
     o["kkt_ok"] = bool(r.z())
     o["gap"] = F(r.z(), 10 ** 12)      # rounded down to 1e-12 by the API (information only)
+    o["inactive"] = r.lst(r.z)          # the final self.inactive list (constraint indices, in order)
     return o
 
 
 # ------------------------------------------------------- implementation ---
+def _final_state(vpsc_mod, solver, V, C, exact):
+    """The solver's final state through public attributes only: the inactive list, the active
+    flags, the block list with each block's variables and blockInd, every variable's block and
+    offset.  Objects are identified by identity and reported as indices."""
+    cid = {id(c): k for k, c in enumerate(C)}
+    vid = {id(v): k for k, v in enumerate(V)}
+    blocks = list(solver.bs._list)
+    bid = {id(b): k for k, b in enumerate(blocks)}
+    conv = (lambda x: [str(F(x).numerator), str(F(x).denominator)]) if exact else float
+    return {"inactive": [cid.get(id(c), -1) for c in solver.inactive],
+            "active": [bool(c.active) for c in C],
+            "blocks": [[vid.get(id(v), -1) for v in b.vars] for b in blocks],
+            "blockInd": [getattr(b, "blockInd", -1) for b in blocks],
+            "vblock": [bid.get(id(v.block), -1) for v in V],
+            "offset": [conv(v.offset) for v in V]}
+
+
 def impl(py):
     from labella import vpsc
 
     def run(conv):
         V = [vpsc.Variable(conv(d), conv(w), conv(s)) for d, w, s in py["vs"]]
         C = [vpsc.Constraint(V[l], V[r], conv(g)) for l, r, g in py["cs"]]
-        cost = vpsc.Solver(V, C).solve()
-        return V, C, cost
+        solver = vpsc.Solver(V, C)
+        cost = solver.solve()
+        return V, C, cost, solver
 
-    V, C, cost = run(lambda x: x)
+    V, C, cost, solver = run(lambda x: x)
     out = {"pos": [float(v.position()) for v in V], "cost": float(cost),
-           "flags": [bool(c.unsatisfiable) for c in C]}
+           "flags": [bool(c.unsatisfiable) for c in C],
+           "state": _final_state(vpsc, solver, V, C, False)}
     if py.get("frac"):
-        V, C, cost = run(F)
+        V, C, cost, solver = run(F)
+        st = _final_state(vpsc, solver, V, C, True)
         out["q"] = {"pos": [[str(F(v.position()).numerator), str(F(v.position()).denominator)] for v in V],
                     "cost": [str(F(cost).numerator), str(F(cost).denominator)],
-                    "flags": [bool(c.unsatisfiable) for c in C]}
+                    "flags": [bool(c.unsatisfiable) for c in C],
+                    "inactive": st["inactive"], "active": st["active"]}
     return out
 
 
@@ -192,10 +222,57 @@ def _fragile_frac(py, m):
     return m["g_lm"] < 1e-12 * max(float(m["g_mag"]), 2 * wmax * M) * len(py["vs"])
 
 
+def state_invariants(py, io):
+    """The invariants proved for the model (coq/Vpsc/InvProofs.v, General.v), checked on the
+    IMPLEMENTATION's final state.  Returns None or a description naming the invariant."""
+    st = io.get("state") if isinstance(io, dict) else None
+    if st is None:
+        return None
+    vs, cs = py["vs"], py["cs"]
+    n, m = len(vs), len(cs)
+    M = _magnitude(py)
+    flags, active, inact = io["flags"], st["active"], st["inactive"]
+    if any(k < 0 or k >= m for k in inact):
+        return "invariant I1: the inactive list contains an object that is not one of the solver's constraints"
+    members = set(inact)
+    # I1: every constraint that is neither active nor flagged unsatisfiable is still tracked
+    for k in range(m):
+        if not active[k] and not flags[k] and k not in members:
+            return ("invariant I1 violated in the implementation's final state: constraint %d %r is neither active nor "
+                    "flagged unsatisfiable but is not in solver.inactive (it will never be looked at again)" % (k, cs[k]))
+    # I4: the blocks of the block list partition the variables; block pointers and blockInd agree
+    seen = [0] * n
+    for b, members_b in enumerate(st["blocks"]):
+        if st["blockInd"][b] != b:
+            return "invariant I4 (blockInd): block at list position %d has blockInd %r" % (b, st["blockInd"][b])
+        for v in members_b:
+            if v < 0 or v >= n:
+                return "invariant I4: block %d lists an object that is not one of the solver's variables" % b
+            seen[v] += 1
+            if st["vblock"][v] != b:
+                return "invariant I4: variable %d is listed by block %d but points to block %r" % (v, b, st["vblock"][v])
+    for v in range(n):
+        if seen[v] != 1:
+            return "invariant I4: variable %d is listed by %d blocks of the block list" % (v, seen[v])
+    # I2: an active constraint has both ends in one block and its offsets differ by the gap
+    for k, (l, r, g) in enumerate(cs):
+        if active[k]:
+            if st["vblock"][l] != st["vblock"][r]:
+                return "invariant I2: active constraint %d %r has its ends in different blocks" % (k, cs[k])
+            if abs(st["offset"][r] - st["offset"][l] - g) > STATE_TOL * (1.0 + M):
+                return "invariant I2: active constraint %d %r: offset difference %r is not the gap" % (
+                    k, cs[k], st["offset"][r] - st["offset"][l])
+    return None
+
+
 def compare(case, io, mo):
     py = case["py"]
     if isinstance(io, dict) and "exc" in io:
         return "implementation raised %s %s" % (io["exc"], io.get("msg", ""))
+    # state-level tie, part (a): the proved invariants on the implementation's own final state
+    inv = state_invariants(py, io)
+    if inv is not None:
+        return inv
     m = decode_model(mo[0])
     if "err" in m:
         return "model failed: %s" % m["err"]
@@ -224,6 +301,14 @@ def compare(case, io, mo):
         if _fragile(py, m) and oracle(case, io) is None:
             raise core.Ambiguous()
         return why
+    # state-level tie, part (b): the final inactive multiset and the active flags equal the model's
+    # wherever no branch of the double-precision run can legitimately differ from the exact model
+    if "state" in io and not _fragile(py, m):
+        if sorted(io["state"]["inactive"]) != sorted(m["inactive"]):
+            return "final inactive list differs (as a multiset): impl %r model %r" % (
+                sorted(io["state"]["inactive"]), sorted(m["inactive"]))
+        if io["state"]["active"] != m["active"]:
+            return "active flags differ: impl %r model %r" % (io["state"]["active"], m["active"])
     if "q" in io:
         q = io["q"]
         qpos = [F(int(a), int(b)) for a, b in q["pos"]]
@@ -234,6 +319,10 @@ def compare(case, io, mo):
             k = [i for i in range(n) if qpos[i] != m["pos"][i]]
             return "exact (Fraction) run of the implementation differs from the model: positions %r, cost equal %r, flags equal %r" % (
                 k[:5], qcost == m["cost"], q["flags"] == m["flags"])
+        if "inactive" in q and not _fragile_frac(py, m):
+            if sorted(q["inactive"]) != sorted(m["inactive"]) or q["active"] != m["active"]:
+                return "exact (Fraction) run: final inactive multiset / active flags differ from the model: inactive %r vs %r, active equal %r" % (
+                    sorted(q["inactive"]), sorted(m["inactive"]), q["active"] == m["active"])
     # the model's own proved checkers must accept its result
     if not m["cost_ok"]:
         return "model: reported cost is not the cost of the reported positions (cost_ok false)"
@@ -452,6 +541,21 @@ def polished_excess(py, pos):
     return (_cost(py, pos) - float(costF)) + float(gapF)
 
 
+def prepare_compare(cases, impl_out, model_out, workdir):
+    """Hand the model's certificate verdict to the oracle (core calls oracle(case, impl_out) only):
+    case["_kkt"] = {"ok": kkt_ok of the model's exit state, "agree": the implementation's output
+    equals the model's within the tie's tolerance}."""
+    for c, io, mo in zip(cases, impl_out, model_out):
+        c.pop("_kkt", None)
+        m = decode_model(mo[0]) if mo else {"err": 1}
+        if "pos" not in m or not isinstance(io, dict) or "pos" not in io or len(io["pos"]) != len(m["pos"]):
+            continue
+        M = _magnitude(c["py"])
+        agree = (all(abs(float(a) - b) <= TOL * max(1.0, abs(float(a)), M) for a, b in zip(m["pos"], io["pos"]))
+                 and io["flags"] == m["flags"])
+        c["_kkt"] = {"ok": bool(m["kkt_ok"]), "agree": bool(agree)}
+
+
 def oracle(case, io):
     """The property statement on the implementation's own output."""
     py = case["py"]
@@ -461,7 +565,7 @@ def oracle(case, io):
     M = _magnitude(py)
     sl = _slacks(py, pos)
     for k, s in enumerate(sl):
-        if not flags[k] and s < -FEAS_TOL * M:
+        if not flags[k] and s < -FEAS_TOL * (1.0 + M):
             return "constraint %d %r not flagged unsatisfiable is violated by %g" % (k, py["cs"][k], -s)
     c = _cost(py, pos)
     if abs(c - cost) > 1e-9 * max(1.0, abs(c)):
@@ -475,6 +579,12 @@ def oracle(case, io):
         if c - float(opt) > OPT_TOL * max(1.0, float(opt)):
             return "optimality: cost %r exceeds the exact optimum %r (active-set enumeration)" % (c, float(opt))
         return None
+    # the proved checker gates: an acyclic run on which model and implementation agree and whose exit
+    # state kkt_ok does NOT certify is not accepted on the strength of the float certificate below
+    # (instances small enough for the exact enumeration were decided above)
+    k = case.get("_kkt")
+    if k is not None and k["agree"] and not k["ok"]:
+        return "optimality: run not certified optimal by the proved checker kkt_ok (model and implementation agree on the output)"
     gap = duality_gap(py, pos)
     if gap > OPT_TOL * max(1.0, c):
         # the flow heuristic can fail to find multipliers; decide exactly if the instance is small enough
@@ -643,6 +753,36 @@ def gen_dup(rng, n):
     return vs, allc
 
 
+W_TRANS = [1, 1, 0.3, 2.5, 7, 100]
+
+
+def gen_transitive(rng, n):
+    """integer desired positions and gaps, weights from a small non-dyadic set, a random DAG, plus 1-4
+    transitive constraints a->c whose gap is EXACTLY g(a->b) + g(b->c): redundant constraints that are
+    tight up to rounding whenever the two-step path is active (their float slack is a rounding-sized
+    number of either sign)"""
+    vs = [[rng.randrange(0, 10), rng.choice(W_TRANS), 1] for _ in range(n)]
+    m = rng.randrange(n, 2 * n + 2)
+    cs = []
+    for _ in range(m):
+        a, b = sorted(rng.sample(range(n), 2))
+        cs.append([a, b, rng.choice([1, 2, 3, 3, 4, 6])])
+    by_left = {}
+    for l, r, g in cs:
+        by_left.setdefault(l, []).append((r, g))
+    extra = []
+    for _ in range(rng.randrange(1, 5)):
+        cands = [(l, r, g) for l, r, g in cs if r in by_left]
+        if not cands:
+            break
+        l, r, g = rng.choice(cands)
+        r2, g2 = rng.choice(by_left[r])
+        extra.append([l, r2, g + g2])
+    allc = cs + extra
+    rng.shuffle(allc)
+    return vs, allc
+
+
 def gen_cyclic(rng, n):
     vs = _vars(rng, n)
     cs = []
@@ -699,6 +839,9 @@ def gen(rng, tier):
     mix = [("dag", gen_dag, 40), ("chain", gen_chain, 10), ("layer", gen_layer, 8), ("tree", gen_tree, 7),
            ("dup", gen_dup, 15), ("cyc", gen_cyclic, 20)]
     tot = sum(w for _, _, w in mix)
+    for _ in range(400 if tier == "quick" else 6000):
+        vs, cs = gen_transitive(rng, rng.randrange(5, 13))
+        yield _case("trans", vs, cs, True)
     for kind, f, w in mix:
         for _ in range(total * w // tot):
             n = _size(rng, tier)
@@ -716,7 +859,9 @@ def search(rng, tier, mism_cases):
         yield c
     for _ in range(1500 if tier == "quick" else 10000):
         n = rng.randrange(3, 25)
-        f = rng.choice([gen_dag, gen_dup, gen_dag, gen_tree])
+        f = rng.choice([gen_dag, gen_dup, gen_transitive, gen_transitive, gen_tree])
+        if f is gen_transitive:
+            n = rng.randrange(5, 13)
         vs, cs = f(rng, n)
         if _is_dag(len(vs), cs):
             yield _case("search", vs, cs, True, frac=False)
@@ -736,7 +881,10 @@ def shrink_candidates(case):
 
 
 def extra_evidence(cases, impl_out, model_out):
-    st = {"model_kkt_ok": 0, "model_kkt_checked": 0, "model_feasible_ok": 0, "model_partition_ok": 0, "model_cost_ok": 0,
+    st = {"kkt_certified": 0, "kkt_uncertified": 0, "kkt_uncertified_but_exact_enumeration_optimal": 0,
+          "impl_state_invariants_checked": 0, "impl_state_invariant_failures": 0,
+          "state_compared_float_runs": 0, "state_compared_exact_runs": 0,
+          "model_kkt_ok": 0, "model_kkt_checked": 0, "model_feasible_ok": 0, "model_partition_ok": 0, "model_cost_ok": 0,
           "merge_only_runs_covered_by_unconditional_theorems": 0, "exact_fraction_runs": 0, "exact_fraction_equal": 0, "instances_with_splits": 0, "instances_with_flags": 0,
           "max_satisfy_rounds": 0, "max_rel_position_error": 0.0, "runs_diverging_at_ties_ambiguous": 0, "max_model_duality_gap_rel": 0.0, "sizes": {}}
     for c, io, mo in zip(cases, impl_out, model_out):
@@ -750,7 +898,18 @@ def extra_evidence(cases, impl_out, model_out):
         st["model_feasible_ok"] += m["feas_ok"]
         st["model_partition_ok"] += m["part_ok"]
         st["model_cost_ok"] += m["cost_ok"]
+        if "state" in io:
+            st["impl_state_invariants_checked"] += 1
+            st["impl_state_invariant_failures"] += state_invariants(py, io) is not None
+            st["state_compared_float_runs"] += not _fragile(py, m)
+        if "q" in io and "inactive" in io["q"]:
+            st["state_compared_exact_runs"] += not _fragile_frac(py, m)
         if py["dag"]:
+            st["kkt_certified"] += m["kkt_ok"]
+            if not m["kkt_ok"]:
+                st["kkt_uncertified"] += 1
+                st["kkt_uncertified_but_exact_enumeration_optimal"] += (
+                    exact_optimum(py) is not None and oracle(dict(c, _kkt=None), io) is None)
             st["model_kkt_checked"] += 1
             st["model_kkt_ok"] += m["kkt_ok"]
             st["max_model_duality_gap_rel"] = max(st["max_model_duality_gap_rel"],
